@@ -68,6 +68,9 @@ fn vec_and_btreeset_models_agree_with_std() {
             { let mut c = v.clone(); let mut sc2 = sv.clone(); c.dedup_by_key(|x| *x / 2); sc2.dedup_by_key(|x| *x / 2); assert_eq!(c.iter().cloned().collect::<Vec<_>>(), sc2);
               let mut c1: vcoll::VVecV1<u32> = sv.iter().cloned().collect(); c1.dedup_by_key(|x| *x / 2); assert_eq!(c1.iter().cloned().collect::<Vec<_>>(), sc2);
               let mut c = v.clone(); let mut sc3 = sv.clone(); c.dedup(); sc3.dedup(); assert_eq!(c.iter().cloned().collect::<Vec<_>>(), sc3); }
+            { let mut c = v.clone(); let mut s2 = sv.clone(); c.retain(|x| x % 2 == 0); s2.retain(|x| x % 2 == 0); assert_eq!(c.iter().cloned().collect::<Vec<_>>(), s2);
+              let n = r.below(vcoll::VCAP as u64 + 1) as usize; c.resize(n, 9); s2.resize(n, 9); assert_eq!(c.iter().cloned().collect::<Vec<_>>(), s2);
+              if n > 0 { c[n - 1] = 77; s2[n - 1] = 77; assert_eq!(c.iter().cloned().collect::<Vec<_>>(), s2); } }
             assert_eq!(v.len(), sv.len()); assert_eq!(v.is_empty(), sv.is_empty());
             assert_eq!(v.iter().cloned().collect::<Vec<_>>(), sv);
             assert_eq!(v.first(), sv.first()); assert_eq!(v.last(), sv.last()); assert_eq!(v.contains(&x), sv.contains(&x));
